@@ -318,7 +318,13 @@ func H05() {
 		for _, fid := range t.FieldIDs {
 			verifAssume(fid != id)
 		}
-		insertField(tree, verifChoice(len(tree.Kids)+1), id, foreign(verifChoice(nForeign)))
+		pos := 0
+		if verifParam("ends") == 1 {
+			pos = verifChoice(2) * len(tree.Kids) // first or last boundary only
+		} else {
+			pos = verifChoice(len(tree.Kids) + 1)
+		}
+		insertField(tree, pos, id, foreign(verifChoice(nForeign)))
 	case 1: // a declared, present field re-encoded with another wire type
 		verifAssume(len(tree.Kids) > 0)
 		pos := verifChoice(len(tree.Kids))
@@ -484,7 +490,17 @@ func H14g() {
 	t := curType()
 	d := verifParam("depth")
 	x, tx := decoded(t, d)
-	y, ty := decoded(t, d)
+	var y Codec
+	var ty *Node
+	if verifParam("sameshape") == 1 {
+		// y: same shape as x, independent leaves
+		var err error
+		y, err = decodeWire(t, SpecEncode(CloneFresh(tx), nil))
+		verifAssert(err == nil, "reference-encoding-decodes")
+		ty = t.Tree(y)
+	} else {
+		y, ty = decoded(t, d)
+	}
 	verifAssert(t.Equals(x, x), "reflexive")
 	xy := t.Equals(x, y)
 	yx := t.Equals(y, x)
